@@ -93,6 +93,15 @@ pub fn rng_bytes() -> usize {
     unsafe { RNG_BYTES }
 }
 
+pub static mut RNG_DRAWS_BASE: usize = 0;
+pub static mut RNG_BYTES_BASE: usize = 0;
+pub fn rng_draws_since() -> usize {
+    unsafe { RNG_DRAWS - RNG_DRAWS_BASE }
+}
+pub fn rng_bytes_since() -> usize {
+    unsafe { RNG_BYTES - RNG_BYTES_BASE }
+}
+
 pub fn has_e_token(pat: Pat, m: usize) -> bool {
     let toks = pat.def().msgs[m];
     let mut t = 0;
